@@ -34,6 +34,21 @@ func genC04(c *runCfg) error {
 		g.w("\tvrt.Assume(!quirk) // octets 0x08..0x0F are not identifiers of any message (outside the property's quantifier)\n")
 		g.w("\tvrt.Assert((err == nil) == ok, \"%s: decoder accepts exactly what the table-driven decoder accepts\")\n", m.Message)
 		g.w("\tif ok && err == nil {\n\t\tvrt.Equal(zzElems%s(a), es, \"%s: decoded fields equal the table-driven decoder's\")\n\t}\n}\n\n", m.Message, m.Message)
+		// duplicates: every optional element twice with independently chosen lengths (last one wins, nothing of the first survives)
+		if len(optRows(m)) > 0 {
+			g.w("func VH_C04_%s_dup() {\n", m.Message)
+			g.w("\tj := vrt.Choose(\"row\", 0, %d)\n\tc1 := vrt.Choose(\"cls1\", 0, 3)\n\tc2 := vrt.Choose(\"cls2\", 0, 3)\n", len(optRows(m))-1)
+			g.w("\tbase := zzSym%s(0, 0)\n\tfirst := zzSym%s(2+j, c1)\n", m.Message, m.Message)
+			g.w("\tin := ref.Encode(zzTbl%s, first)\n", m.Message)
+			g.w("\t// second occurrence of the same element with its own symbolic content (names prefixed)\n")
+			g.w("\tsecond := zzSymB%s(2+j, c2)\n\tonly := make([]ref.Elem, len(second))\n\tfor i := range only {\n\t\tif zzTbl%s[i].Opt {\n\t\t\tonly[i] = second[i]\n\t\t}\n\t}\n", m.Message, m.Message)
+			g.w("\toptOnly := make([]ref.Row, len(zzTbl%s))\n\tcopy(optOnly, zzTbl%s)\n\tfor i := range optOnly {\n\t\tif !optOnly[i].Opt {\n\t\t\toptOnly[i].F = ref.FV\n\t\t\toptOnly[i].N = 0\n\t\t\tonly[i] = ref.Elem{Present: true}\n\t\t}\n\t}\n", m.Message, m.Message)
+			g.w("\tin = append(in, ref.Encode(optOnly, only)...)\n\t_ = base\n")
+			g.w("\ta := nasMessage.New%s(0)\n\terr := a.Decode%s(&in)\n", m.Message, m.Message)
+			g.w("\tes, _, ok := ref.DecodeQ(zzTbl%s, in)\n", m.Message)
+			g.w("\tvrt.Assert(ok && err == nil, \"%s: an element occurring twice is accepted\")\n", m.Message)
+			g.w("\tvrt.Equal(zzElems%s(a), es, \"%s: the last duplicate wins and nothing of the first occurrence survives\")\n}\n\n", m.Message, m.Message)
+		}
 		// encoder side on the shape families
 		g.w("func VH_C04_%s_enc() {\n", m.Message)
 		g.w("\tshape := vrt.Choose(\"shape\", 0, zzNShapes%s-1)\n\tcls := vrt.Choose(\"cls\", 0, 3)\n", m.Message)
@@ -201,6 +216,14 @@ func genC10(c *runCfg) error {
 		g.w("\tvrt.Assert(vrt.Unchanged(snap), \"%s: decoding does not modify the input bytes\")\n", m.Message)
 		g.w("\tvrt.Assert(!vrt.Shares(m1, in), \"%s: the decoded message shares no memory with the input\")\n", m.Message)
 		g.w("\tif err == nil {\n\t\tm2 := NewMessage()\n\t\terr2 := m2.PlainNasDecode(&in)\n\t\tvrt.Assert(err2 == nil, \"%s: decoding is deterministic (accept)\")\n\t\tvrt.Equal(m2, m1, \"%s: decoding is deterministic (value)\")\n\t}\n}\n\n", m.Message, m.Message)
+		// decode purity with a symbolic-length input: mandatory part + one optional element of any identifier and any length
+		g.w("func VH_C10_%s_ie() {\n", m.Message)
+		g.w("\tvrt.CutAt(%q, \"for.body\", 2)\n", decFn(m))
+		g.w("\tin := vrt.BytesSym(\"in\", 70000)\n\tsnap := vrt.Snapshot(in)\n")
+		g.w("\ta := nasMessage.New%s(0)\n", m.Message)
+		g.w("\tvrt.Cut(func() { _ = a.Decode%s(&in) })\n", m.Message)
+		g.w("\tvrt.Assert(vrt.Unchanged(snap), \"%s: decoding does not modify the input bytes (any element, any length)\")\n", m.Message)
+		g.w("\tvrt.Assert(!vrt.Shares(a, in), \"%s: no decoded element aliases the input (any element, any length)\")\n}\n\n", m.Message)
 		// encode purity on well-formed messages, into a buffer with pre-existing content
 		g.w("func VH_C10_%s_enc() {\n", m.Message)
 		g.w("\tshape := vrt.Choose(\"shape\", 0, 1+min(1, zzNShapes%s-2))\n\tcls := vrt.Choose(\"cls\", 0, 1)\n", m.Message)
